@@ -161,6 +161,9 @@ pub fn gen_level(rng: &mut Rng, codec: CompressionType, cheap: bool) -> u32 {
 }
 
 pub fn gen_cfg(rng: &mut Rng, cheap: bool) -> WCfg {
+    if rng.chance(1, 40) {
+        return WCfg::plain();
+    }
     let all = codecs();
     let codec = *rng.pick(&all);
     let level = gen_level(rng, codec, cheap);
@@ -376,7 +379,20 @@ pub fn gen_deep_case(rng: &mut Rng, levels: u8, n: usize) -> (Vec<Entry>, WCfg) 
 /// Writes `entries` with the real writer. `Err` carries the panic or io error text.
 pub fn build_file(cfg: &WCfg, entries: &[Entry]) -> Result<Vec<u8>, String> {
     guarded(|| -> Result<Vec<u8>, String> {
-        let mut w = cfg.builder().memory();
+        // an all-default configuration also goes through the shortcut constructors
+        let all_default = cfg.codec == CompressionType::None && cfg.level == 0 && cfg.block_size.is_none() && cfg.interval.is_none() && cfg.levels.is_none();
+        let mut w = if all_default {
+            match entries.len() % 4 {
+                0 => Writer::memory(),
+                1 => Writer::new(Vec::new()),
+                2 => WriterBuilder::new().memory(),
+                _ => Writer::builder().build(Vec::new()),
+            }
+        } else if entries.len() % 2 == 0 {
+            cfg.builder().memory()
+        } else {
+            cfg.builder().build(Vec::new())
+        };
         for (k, v) in entries {
             w.insert(k, v).map_err(|e| format!("insert io error: {}", e))?;
         }
